@@ -8,7 +8,7 @@ import core
 import gen
 
 PID = 'C12'
-MODULES = ['FFVerif.Proofs.C12', 'FFVerif.Proofs.C12Chain']
+MODULES = ['FFVerif.Proofs.C12', 'FFVerif.Proofs.C12Chain', 'FFVerif.Proofs.C20Align']
 
 
 def fail(res, clause, case, out, sig=None):
